@@ -122,13 +122,23 @@ def kernel(src, name):
     return {'kind': 'elem', 'name': name, 'threshold': threshold, 'elems': env['@elems'], 'scalars': scalars, 'term': term, 'target': tgt}
 
 
+def write_if_changed(path, text):
+    """keep the time stamp when nothing changed, so that make does not rebuild the proofs"""
+    try:
+        if open(path).read() == text:
+            return
+    except OSError:
+        pass
+    with open(path, 'w') as f:
+        f.write(text)
+
+
 def main():
     try:
         src = strip_comments(open(os.path.join(REPO, 'include/LinearAlgebra/vector_operations.h')).read())
         ks = [kernel(src, k) for k in KERNELS]
     except (TranslateError, ValueError, IndexError) as ex:
-        with open(OUT, 'w') as f:
-            f.write('(* T6 could not translate the current source: %s *)\nT6_translation_failed.\n' % str(ex).replace('*)', '* )'))
+        write_if_changed(OUT, '(* T6 could not translate the current source: %s *)\nT6_translation_failed.\n' % str(ex).replace('*)', '* )'))
         print('T6 FAILED:', ex)
         return 1
     out = ['(* GENERATED by translate/t6_vector_kernels.py from include/LinearAlgebra/vector_operations.h; do not edit. *)',
@@ -147,8 +157,7 @@ def main():
         out.append('Definition gen_%s_threshold : Z := %d%%Z.' % (k['name'], k['threshold']))
         if k['kind'] == 'red':
             out.append('Definition gen_%s_reduction : redop := %s.' % (k['name'], 'RedPlus' if k['op'] == '+' else 'RedMax'))
-    with open(OUT, 'w') as f:
-        f.write('\n'.join(out) + '\n')
+    write_if_changed(OUT, '\n'.join(out) + '\n')
     print('T6 ok: %s (%d kernels)' % (OUT, len(ks)))
     return 0
 
